@@ -37,10 +37,16 @@ def ob_graph(ctx):
     P = ctx.P
     m, k = P["m"], P["k"]
     Mod, Vec = stub_classes(st)
-    up = ctx.mk.seq("up", k, "ACGT")
-    down = ctx.mk.seq("down", k, "ACGT")
-    starts = [ctx.mk.seq("s%d" % i, k, "ACGT") for i in range(m)]
-    ends = [ctx.mk.seq("e%d" % i, k, "ACGT") for i in range(m)]
+    alpha = P.get("alphabet", "ACGT")
+    up = ctx.mk.seq("up", k, alpha)
+    down = ctx.mk.seq("down", k, alpha)
+    starts = [ctx.mk.seq("s%d" % i, k, alpha) for i in range(m)]
+    ends = [ctx.mk.seq("e%d" % i, k, alpha) for i in range(m)]
+
+    def ucodes(x, k):
+        # overhangs are compared without regard to letter case (C18): the reference walk works on upper-case codes
+        h = getattr(sdata(x), "hint", None)
+        return [supper_code(c, h) for c in codes(x, k)]
 
     def rec(i, data):
         return st.record.CircularRecord(st.Seq(data), id="m%d" % i if i >= 0 else "vec")
@@ -50,7 +56,7 @@ def ob_graph(ctx):
     vec = Vec(rec(-1, "ACGT"), st.Seq(up), st.Seq(down), lambda: st.SeqRecord(st.Seq(up + "TTTT"), id="vec"))
     out = run_assemble(st, vec, mods)
     ctx.observe("kind", out["kind"])
-    ref = reference_walk(codes(up, k), codes(down, k), [codes(s, k) for s in starts], [codes(e, k) for e in ends], k)
+    ref = reference_walk(ucodes(up, k), ucodes(down, k), [ucodes(s, k) for s in starts], [ucodes(e, k) for e in ends], k)
     ctx.witness(ref[0])
     ctx.require(out["kind"] == ref[0], "outcome-class:%s-vs-%s" % (out["kind"], ref[0]))
     if ref[0] == "DuplicateModules":
@@ -63,7 +69,7 @@ def ob_graph(ctx):
         ctx.witness("reverse-complement-pair", any(a != b for a, b in ref[1]))
     elif ref[0] == "MissingModule":
         so = out["exc"].start_overhang
-        ctx.require(codes_eq(codes(so, k), ref[1]) and Eq(slen(so), k), "stalled-overhang")
+        ctx.require(codes_eq(ucodes(so, k), ref[1]) and Eq(slen(so), k), "stalled-overhang")
         ctx.witness("missing-after-some-consumed", len(ref[2]) > 0)
     elif ref[0] == "product":
         chain = ref[1]
@@ -115,4 +121,7 @@ def obligations(tier, seed):
             exp = ["InvalidSequence", "MissingModule", "product", "DuplicateModules"] if (m >= 1) else []
             obs.append(Ob("overhang graph m=%d overhang=%dnt order=%s" % (m, k, perm), ob_graph,
                           dict(m=m, k=k, perm=perm), samples=12, cost=6 ** m * k, expect_witness=exp))
+            if perm == "rot" and k == 2 and m <= tier_pick(tier, 2, 3):
+                obs.append(Ob("overhang graph m=%d overhang=%dnt mixed-case letters" % (m, k), ob_graph,
+                              dict(m=m, k=k, perm=perm, alphabet="ACGTacgt"), samples=12, cost=12 ** m * k, expect_witness=exp))
     return obs
